@@ -516,6 +516,7 @@ def monitor_async(c, tr):
     n_accept = 0
     expect = None     # (key, what) the next handler event must be
     in_step = False
+    driver_alive = False
 
     def S(key):
         return socks.setdefault(key, {"q": [], "disc": 0, "alive": True, "async": False, "fd": None, "kind": 0, "peer": None})
@@ -545,6 +546,10 @@ def monitor_async(c, tr):
                 kill(key)
                 socks[key] = {"q": [], "disc": 0, "alive": True, "async": False, "fd": fd, "kind": 1, "peer": a[3]}
                 fd2key[fd] = key
+            if opc == 40:
+                driver_alive = bool(ok)
+            elif opc == 44 and ok:
+                driver_alive = False
             if opc == 60 and ok:
                 S(a[2])["async"] = True
                 S(a[2])["disc"] = 0
@@ -582,6 +587,13 @@ def monitor_async(c, tr):
                     return "future %d carries an exception although no send of its buffer failed" % f
         elif k == 8 and a[0] == 11:
             fd2key.pop(a[1], None)
+        elif k == 24 and len(a) >= 2 and driver_alive:
+            # the driver's poll list after an operation: every asynchronous socket that is alive and was not disconnected is on it
+            listed = set(a[0::2])
+            for key, st in socks.items():
+                if st.get("alive") and st.get("async") and not st.get("disc") and st.get("fd") is not None and st["fd"] not in listed:
+                    return ("socket %d (descriptor %d) is alive and asynchronous, but the driver no longer polls it: nothing that arrives for it "
+                            "will ever reach its handler" % (key, st["fd"]))
         elif k in (3, 5):
             fd = a[0]
             if k == 3 and a[2] != 16384:
